@@ -5,8 +5,9 @@
 //! Line: `alias F <frame>* G <group size>* O <offset of the borrowed bytes in a frame> => <same|diff>@<d>*`
 //! (replies arrive in groups: one transport read per group); `<d>` is the address of the item's
 //! borrowed bytes minus that of the first item's: items that lie in one unmoved buffer are at the
-//! distances their frames dictate. Total size stays at or below the first growth step, so the pinned
-//! code never reallocates; should a change make it reallocate, the harness allocator
+//! distances their frames dictate. Total size stays at or below the first growth step (except for the
+//! all-buffered large batches, where growth happens before the first item is yielded), so the pinned
+//! code never reallocates under a held item; should a change make it reallocate, the harness allocator
 //! (`moving_alloc.rs`) moves the block and keeps the old one mapped and unchanged, so the move shows in
 //! `<d>` and no recycled memory is ever read.
 
@@ -87,10 +88,20 @@ pub fn main(o: &Opts) {
                 }
             }
         }
+        // every fourth case: a batch far beyond the first growth steps (one reply of 0.3..12 KiB at a random
+        // position among small ones), delivered in ONE read, so that every reply is buffered before the first
+        // item is yielded: the class in which the pinned code keeps all yielded items intact
+        // (theorem C11_partial_all_buffered)
+        let big = case % 4 == 3;
+        if big {
+            let at = rng.below(k);
+            let l = match rng.below(4) { 0 => rng.range(300, 1000), 1 => rng.range(1000, 4200), 2 => rng.range(4000, 6000), _ => rng.range(6000, 12000) };
+            names[at] = (0..l).map(|j| (b'a' + ((at * 5 + j) % 26) as u8) as char).collect();
+        }
         let mut groups = vec![];
         let mut left = k;
         while left > 0 {
-            let g = if rng.chance(1, 3) || (exact && rng.chance(2, 3)) { left } else { rng.range(1, left) };
+            let g = if big || rng.chance(1, 3) || (exact && rng.chance(2, 3)) { left } else { rng.range(1, left) };
             groups.push(g);
             left -= g;
         }
